@@ -42,7 +42,13 @@ type aIface struct {
 type aWsum struct {
 	a, b aVal
 	bits int
+	// opBits: when non-zero, both operands were widened from unsigned
+	// opBits-bit values, so the bits-bit sum itself cannot wrap
+	opBits int
 }
+
+// aCarry is the carry-out of math/bits.Add64/Add32 applied to (a, b, 0).
+type aCarry struct{ a, b aVal }
 
 // aCapMinus is (2^bits - 1) - x: the room left before a w-bit counter wraps.
 type aCapMinus struct {
@@ -89,6 +95,8 @@ func aShow(v aVal) string {
 		return "wsum(" + aShow(x.a) + "," + aShow(x.b) + ")"
 	case aCapMinus:
 		return "(cap - " + aShow(x.x) + ")"
+	case aCarry:
+		return "carry(" + aShow(x.a) + "," + aShow(x.b) + ")"
 	case aTuple:
 		var p []string
 		for _, e := range x {
@@ -273,7 +281,20 @@ func (fr *aFrame) binop(x *ssa.BinOp) aVal {
 	switch x.Op {
 	case token.ADD:
 		if bits := intBits(x.Type()); bits > 0 {
-			return aWsum{a, b, bits}
+			w := aWsum{a: a, b: b, bits: bits}
+			// both operands widened from narrower unsigned values
+			widened := func(v ssa.Value) int {
+				if cv, ok := v.(*ssa.Convert); ok {
+					if ob := intBits(cv.X.Type()); ob > 0 && ob < bits {
+						return ob
+					}
+				}
+				return 0
+			}
+			if oa, ob := widened(x.X), widened(x.Y); oa > 0 && oa == ob {
+				w.opBits = oa
+			}
+			return w
 		}
 		if ka, ok := a.(aConst); ok {
 			if kb, ok := b.(aConst); ok && ka.v != nil && kb.v != nil && ka.v.Kind() == constant.String {
@@ -291,6 +312,45 @@ func (fr *aFrame) binop(x *ssa.BinOp) aVal {
 			}
 		}
 	case token.EQL, token.NEQ, token.LSS, token.LEQ, token.GTR, token.GEQ:
+		// a sum computed exactly in a wider type exceeds the narrow capacity
+		// iff the narrow sum wraps; the carry-out of bits.Add is that wrap
+		{
+			capOf := func(bits int) constant.Value {
+				return constant.BinaryOp(constant.Shift(constant.MakeInt64(1), token.SHL, uint(bits)), token.SUB, constant.MakeInt64(1))
+			}
+			if w, ok := a.(aWsum); ok && w.opBits > 0 {
+				if kb, ok := b.(aConst); ok && kb.v != nil && kb.v.Kind() == constant.Int && constant.Compare(kb.v, token.EQL, capOf(w.opBits)) {
+					switch x.Op {
+					case token.GTR:
+						return aBool(e.atom("WRAPPED"))
+					case token.LEQ:
+						return aBool(!e.atom("WRAPPED"))
+					}
+				}
+			}
+			if w, ok := b.(aWsum); ok && w.opBits > 0 {
+				if ka, ok := a.(aConst); ok && ka.v != nil && ka.v.Kind() == constant.Int && constant.Compare(ka.v, token.EQL, capOf(w.opBits)) {
+					switch x.Op {
+					case token.LSS:
+						return aBool(e.atom("WRAPPED"))
+					case token.GEQ:
+						return aBool(!e.atom("WRAPPED"))
+					}
+				}
+			}
+			if _, ok := a.(aCarry); ok {
+				if kb, ok := b.(aConst); ok && kb.v != nil && kb.v.Kind() == constant.Int {
+					zero := constant.Sign(kb.v) == 0
+					one := constant.Compare(kb.v, token.EQL, constant.MakeInt64(1))
+					switch {
+					case (x.Op == token.NEQ && zero) || (x.Op == token.EQL && one) || (x.Op == token.GTR && zero):
+						return aBool(e.atom("WRAPPED"))
+					case (x.Op == token.EQL && zero) || (x.Op == token.NEQ && one):
+						return aBool(!e.atom("WRAPPED"))
+					}
+				}
+			}
+		}
 		// the second theorem of w-bit unsigned arithmetic:
 		//   cap - a < b  <=>  a + b > cap  <=>  the w-bit sum wraps
 		if cm, ok := a.(aCapMinus); ok {
@@ -583,6 +643,8 @@ func (c *Ctx) aCall(fn *ssa.Function, args []aVal, env *aEnv, depth int, sums ma
 					}
 				} else if k, ok := src.(aConst); ok && k.v != nil && tb != nil && tb.Info()&types.IsInteger != 0 && k.v.Kind() == constant.Int {
 					fr.vals[x] = aConst{k.v, x.Type()}
+				} else if w, ok := src.(aWsum); ok && w.opBits > 0 && intBits(x.Type()) == w.opBits {
+					fr.vals[x] = aWsum{a: w.a, b: w.b, bits: w.opBits}
 				} else {
 					fr.vals[x] = src
 				}
@@ -694,6 +756,16 @@ func (fr *aFrame) call(x *ssa.Call, sums map[string]aSummary) aVal {
 		// library functions defined in terms of the predicates the
 		// specifications speak about
 		switch callee.String() {
+		case "math/bits.Add64", "math/bits.Add32", "math/bits.Add":
+			if len(args) == 3 {
+				if k, ok := args[2].(aConst); ok && k.v != nil && k.v.Kind() == constant.Int && constant.Sign(k.v) == 0 {
+					bits := 64
+					if callee.Name() == "Add32" {
+						bits = 32
+					}
+					return aTuple{aWsum{a: args[0], b: args[1], bits: bits}, aCarry{args[0], args[1]}}
+				}
+			}
 		case "strings.CutPrefix", "bytes.CutPrefix":
 			if len(args) == 2 {
 				pkg := strings.SplitN(callee.String(), ".", 2)[0]
